@@ -24,6 +24,7 @@ U == CASE UName = "t1small" -> L1s \cup Pairs(L1s)
                                \cup {TDict(x, y) : x \in CtxUser, y \in CtxUser}
                                \cup {TList(t) : t \in Pairs(CtxUser)} \cup {TTupleVar(x) : x \in CtxUser}
                                \cup {TDDict(TCls("str"), TList(x)) : x \in CtxUser}
+                               \cup {MkUnion({x, y, TNone}) : x \in CtxUser, y \in CtxUser}
        [] UName = "ctxtd"   -> LET TD0 == {TTD({TReq("a", x)}) : x \in CtxUser \cup {TCls("int")}}
                                           \cup {TTD({TReq("a", TCls("int")), TOpt("b", x)}) : x \in CtxUser}
                                           \cup {TTD({TOpt("b", TCls("int"))}), TTD({TReq("a", TTD({TReq("x", TCls("int"))}))}),
